@@ -3,6 +3,7 @@ package main
 import (
 	"fmt"
 	"go/types"
+	"sort"
 	"strconv"
 	"strings"
 
@@ -146,7 +147,7 @@ func (x *Exec) callStatic(st *State, fr *Frame, fn *ssa.Function, bind []Val, cc
 		if ct := x.CS.ByKey[name]; ct != nil && !(x.Mode == "summary") {
 			return x.applyContract(st, fr, ct, fn, cc)
 		}
-		if len(fn.Blocks) > 0 && fr.Depth < maxInlineDepth && !x.onStack(st, fn) {
+		if len(fn.Blocks) > 0 && fr.Depth < maxInlineDepth && !x.onStack(st, fn) && !x.isGenerated(fn) {
 			prefix := fr.Prefix + name + "@" + cc.Site + "/"
 			x.pushFrame(st, fn, cc.Args, bind, cc.Instr, prefix, fr.Depth+1)
 			return nil
@@ -344,12 +345,12 @@ func (x *Exec) appendOp(st *State, fr *Frame, cc *CallCtx) Val {
 			// row agrees with old contents below len(s)
 			i := "i!" + strconv.Itoa(x.uniq())
 			oldRow := Select(a, s.Ref, inner)
-			st.Cmds = append(st.Cmds, fmt.Sprintf("(assert (forall ((%s Int)) (! (=> (and (<= 0 %s) (< %s %s)) (= (select %s (+ %s %s)) (select %s (+ %s %s)))) :pattern ((select %s (+ %s %s))))))",
+			st.addCmd(fmt.Sprintf("(assert (forall ((%s Int)) (! (=> (and (<= 0 %s) (< %s %s)) (= (select %s (+ %s %s)) (select %s (+ %s %s)))) :pattern ((select %s (+ %s %s))))))",
 				i, i, i, s.Len.S, row.S, res.Off.S, i, oldRow.S, s.Off.S, i, row.S, res.Off.S, i))
 			// and with the appended slice above
 			addRow := Select(a, add.Ref, inner)
 			j := "j!" + strconv.Itoa(x.uniq())
-			st.Cmds = append(st.Cmds, fmt.Sprintf("(assert (forall ((%s Int)) (! (=> (and (<= 0 %s) (< %s %s)) (= (select %s (+ %s (+ %s %s))) (select %s (+ %s %s)))) :pattern ((select %s (+ %s (+ %s %s)))))))",
+			st.addCmd(fmt.Sprintf("(assert (forall ((%s Int)) (! (=> (and (<= 0 %s) (< %s %s)) (= (select %s (+ %s (+ %s %s))) (select %s (+ %s %s)))) :pattern ((select %s (+ %s (+ %s %s)))))))",
 				j, j, j, n.S, row.S, res.Off.S, s.Len.S, j, addRow.S, add.Off.S, j, row.S, res.Off.S, s.Len.S, j))
 			x.heapSet(st, name, StoreT(a, res.Ref, row))
 		}
@@ -370,7 +371,7 @@ func (x *Exec) appendOp(st *State, fr *Frame, cc *CallCtx) Val {
 			oldRow := Select(a, s.Ref, inner)
 			shifted := x.fresh(st, "shrow", inner)
 			i := "i!" + strconv.Itoa(x.uniq())
-			st.Cmds = append(st.Cmds, fmt.Sprintf("(assert (forall ((%s Int)) (! (=> (and (<= 0 %s) (< %s %s)) (= (select %s %s) (select %s (+ %s %s)))) :pattern ((select %s %s)))))",
+			st.addCmd(fmt.Sprintf("(assert (forall ((%s Int)) (! (=> (and (<= 0 %s) (< %s %s)) (= (select %s %s) (select %s (+ %s %s)))) :pattern ((select %s %s)))))",
 				i, i, i, s.Len.S, shifted.S, i, oldRow.S, s.Off.S, i, shifted.S, i))
 			row = Ite(inPlace, oldRow, shifted)
 		}
@@ -437,7 +438,7 @@ func (x *Exec) copyOp(st *State, fr *Frame, cc *CallCtx) Val {
 		}
 		row := x.fresh(st, "cprow", inner)
 		i := "i!" + strconv.Itoa(x.uniq())
-		st.Cmds = append(st.Cmds, fmt.Sprintf("(assert (forall ((%s Int)) (! (= (select %s %s) (ite (and (<= %s %s) (< %s (+ %s %s))) (select %s (+ %s (- %s %s))) (select %s %s))) :pattern ((select %s %s)))))",
+		st.addCmd(fmt.Sprintf("(assert (forall ((%s Int)) (! (= (select %s %s) (ite (and (<= %s %s) (< %s (+ %s %s))) (select %s (+ %s (- %s %s))) (select %s %s))) :pattern ((select %s %s)))))",
 			i, row.S, i, dst.Off.S, i, i, dst.Off.S, n.S, srcRow.S, src.Off.S, i, dst.Off.S, dstRow.S, i, row.S, i))
 		x.heapSet(st, name, StoreT(a, dst.Ref, row))
 	}
@@ -635,6 +636,7 @@ func (x *Exec) checkReturn(st *State, fr *Frame, res []Val) {
 		env[names[i]] = r
 	}
 	x.evalLets(st, x.Old, ct, env)
+	x.assumeFreshOnlyFrames(st)
 	for _, en := range ct.Ensures {
 		if !en.forProp(x.Prop) {
 			continue
@@ -644,7 +646,18 @@ func (x *Exec) checkReturn(st *State, fr *Frame, res []Val) {
 		if b, ok := en.E.(EBin); ok && b.Op == "==>" {
 			ante := x.evalExprBool(st, x.Old, fr, b.L, env)
 			key := x.TopKey + "#cover.ensures." + clauseLabel(en)
-			if !x.retCover[key] && !isLit(ante, "false") {
+			likely := true
+			if ev, ok := env["err"]; ok && !isLit(ev.T, "0") {
+				if id, ok := b.L.(EBin); ok {
+					_ = id
+				}
+				likely = !exprMentionsErrNil(b.L)
+			}
+			limit := 5
+			if likely {
+				limit = 3000
+			}
+			if x.instCount[key] < limit && !isLit(ante, "false") {
 				x.oblige(st, key, ante, "cover")
 			}
 		}
@@ -730,4 +743,66 @@ func (x *Exec) evalExprBool(st *State, old *State, fr *Frame, e Expr, env map[st
 		return BoolT(false)
 	}
 	return v.T
+}
+
+// isGenerated: protobuf-generated code is not inlined (treated as an external).
+func (x *Exec) isGenerated(fn *ssa.Function) bool {
+	pos := x.Prog.Fset.Position(fn.Pos())
+	return strings.HasSuffix(pos.Filename, ".pb.go")
+}
+
+// exprMentionsErrNil: the antecedent contains the conjunct err == nil.
+func exprMentionsErrNil(e Expr) bool {
+	for _, c := range flattenAnd(e) {
+		if b, ok := c.(EBin); ok && b.Op == "==" {
+			if id, ok := b.L.(EIdent); ok && id.Name == "err" {
+				if _, ok := b.R.(ENil); ok {
+					return true
+				}
+			}
+		}
+	}
+	return false
+}
+
+// assumeFreshOnlyFrames: an array whose writes on this path all went to objects
+// allocated on this path still has its entry value on every entry object.
+func (x *Exec) assumeFreshOnlyFrames(st *State) {
+	names := make([]string, 0, len(st.Heap))
+	for n := range st.Heap {
+		names = append(names, n)
+	}
+	sort.Strings(names)
+	for _, name := range names {
+		if st.Dirty[name] || strings.HasPrefix(name, "St!") || strings.HasPrefix(name, "M!") {
+			continue
+		}
+		var srt string
+		if name == bytesArr {
+			srt = arrSort(SInt, SStr)
+		} else {
+			for _, pss := range prefixRegistry {
+				for _, p := range pss {
+					if p[0] == name {
+						srt = p[1]
+					}
+				}
+			}
+		}
+		if srt == "" {
+			continue
+		}
+		cur := st.Heap[name]
+		init := "H0!" + name
+		if o, ok := x.Old.Heap[name]; ok {
+			if o == cur {
+				continue
+			}
+			init = o
+		} else {
+			x.Reg.DeclareConst(init, srt)
+			init = sym(init)
+		}
+		st.addCmd(fmt.Sprintf("(assert (forall ((r Int)) (! (=> (<= r %s) (= (select %s r) (select %s r))) :pattern ((select %s r)))))", st.WM0.S, cur, init, cur))
+	}
 }
